@@ -174,3 +174,49 @@ Definition c02_ok (t : trace) : bool := q_ok (mon2_of t).
 Definition sum_deltas (t : trace) : Z := q_sum (mon2_of t).
 Definition handed_out (t : trace) : list nat := q_handed (mon2_of t).
 Definition adds_in_flight (t : trace) : list nat := q_inflight (mon2_of t).
+
+(* ---------------------------------------------------------------- C01, read call by call
+   A second, independent executable formulation, used to cross-check the streaming monitor on
+   every judged trace (WGJudge.mon_agree): for each Wait call separately, scan forward from
+   the call: z = "lb <= 0 seen since the call"; the call's return is the first later item of
+   the same thread that is not an internal step; after the return of channel x, at every
+   position where x is closed z must hold.  Items are taken oldest first, each paired with
+   the value of lb after it.                                                               *)
+Fixpoint with_lb (lb : Z) (items : list witem) : list (witem * Z) :=
+  match items with
+  | [] => []
+  | it :: rest => let lb' := lb + lb_delta (it_ev it) in (it, lb') :: with_lb lb' rest
+  end.
+
+Fixpoint observe_x (x : nat) (z : bool) (items : list (witem * Z)) : bool :=
+  match items with
+  | [] => true
+  | (it, lb) :: rest =>
+      let z' := z || (lb <=? 0) in
+      implb (memb x (snd (it_obs it))) z' && observe_x x z' rest
+  end.
+
+Fixpoint check_call (tid : nat) (z : bool) (items : list (witem * Z)) : bool :=
+  match items with
+  | [] => true
+  | (it, lb) :: rest =>
+      if Nat.eqb (it_tid it) tid then
+        match it_ev it with
+        | ETau => check_call tid (z || (lb <=? 0)) rest
+        | ERet CWait (RChan x) => observe_x x z items
+        | _ => true
+        end
+      else check_call tid (z || (lb <=? 0)) rest
+  end.
+
+Fixpoint decl_from (items : list (witem * Z)) : bool :=
+  match items with
+  | [] => true
+  | (it, lb) :: rest =>
+      match it_ev it with
+      | ECall CWait => check_call (it_tid it) (lb <=? 0) rest
+      | _ => true
+      end && decl_from rest
+  end.
+
+Definition c01_decl (t : trace) : bool := decl_from (with_lb 0 (rev t)).
